@@ -2,6 +2,7 @@ package world
 
 import (
 	"fmt"
+	"os"
 	"regexp"
 	"sort"
 	"strconv"
@@ -526,6 +527,13 @@ func (w *W) checkStructure(root *Handle, op string) {
 
 // Step executes one operation chosen by the tape and checks the invariants.
 func (w *W) Step() {
+	if os.Getenv("VSIM_DEBUG_TREE") != "" {
+		for _, h := range w.live() {
+			var d []string
+			h.M.Walk(func(x *model.Node, s []model.Seg) { d = append(d, fmt.Sprintf("%v:%s/%s", s, x.K, x.Src)) })
+			w.R.Tracef("DEBUG h%d %v", h.ID, d)
+		}
+	}
 	w.R.NextStep()
 	w.opDetail = nil
 	f := w.F
@@ -572,8 +580,11 @@ func (w *W) withMeta(opts []ucfg.Option) ([]ucfg.Option, string) {
 	return opts, ""
 }
 
+// setSrc records the source the settings of an input were loaded with. The root of a config is
+// the object NewFrom / New creates before the input is merged into it: it carries no source.
 func setSrc(n *model.Node, src string) {
 	n.Walk(func(x *model.Node, _ []model.Seg) { x.Src = src })
+	n.Src = ""
 }
 
 // topLevel: a config created from an empty top-level container is just an
@@ -583,6 +594,75 @@ func topLevel(tree *model.Node) *model.Node {
 		tree.Sticky = 0
 	}
 	return tree
+}
+
+// respell writes some nested settings of a generic input as dotted keys: under a path separator
+// {"a": {"b": v}} and {"a<sep>b": v} are the same input, whatever v is (C12: "the equivalent
+// dotted path"). Returns the input and a note for the trace.
+func (w *W) respell(in interface{}) (interface{}, string) {
+	if w.Sep == "" || !w.R.T.Chance(1, 3, "respell") {
+		return in, ""
+	}
+	n := 0
+	out := w.respellMap(in, 0, &n)
+	if n == 0 {
+		return in, ""
+	}
+	w.R.Probe("input: nested settings spelled as dotted keys (containers as values included)")
+	return out, fmt.Sprintf(" [spelled with %d dotted keys: %v]", n, out)
+}
+
+func (w *W) respellMap(v interface{}, depth int, n *int) interface{} {
+	m, ok := v.(map[string]interface{})
+	if !ok || depth > 2 {
+		return v
+	}
+	t := w.R.T
+	keys := make([]string, 0, len(m))
+	for k := range m {
+		keys = append(keys, k)
+	}
+	sort.Strings(keys)
+	out := map[string]interface{}{}
+	for _, k := range keys {
+		switch c := m[k].(type) {
+		case map[string]interface{}:
+			if len(c) > 0 && t.Chance(1, 2, "spell-dotted") {
+				split := t.Bool("spell-split")
+				kks := make([]string, 0, len(c))
+				for kk := range c {
+					kks = append(kks, kk)
+				}
+				sort.Strings(kks)
+				rest := map[string]interface{}{}
+				for i, kk := range kks {
+					if split && i%2 == 1 {
+						rest[kk] = c[kk]
+					} else {
+						out[k+w.Sep+kk] = c[kk]
+						*n++
+					}
+				}
+				if len(rest) > 0 {
+					out[k] = rest
+				}
+				continue
+			}
+			out[k] = w.respellMap(c, depth+1, n)
+		case []interface{}:
+			if len(c) > 0 && t.Chance(1, 4, "spell-list-dotted") {
+				for i, e := range c {
+					out[k+w.Sep+strconv.Itoa(i)] = e
+					*n++
+				}
+				continue
+			}
+			out[k] = c
+		default:
+			out[k] = c
+		}
+	}
+	return out
 }
 
 func (w *W) opCreate() string {
@@ -595,10 +675,14 @@ func (w *W) opCreate() string {
 	}
 	setSrc(tree, src)
 	in := Render(tree, rep, w.Opts)
+	spelled := ""
+	if rep == RepGeneric {
+		in, spelled = w.respell(in)
+	}
 	var c *ucfg.Config
 	var err error
 	w.R.MustComplete("NewFrom", func() { c, err = ucfg.NewFrom(in, opts...) })
-	w.R.Tracef("h%d := NewFrom(%s %s)", w.nextID+1, RepName(rep), tree.Canon())
+	w.R.Tracef("h%d := NewFrom(%s %s%s)", w.nextID+1, RepName(rep), tree.Canon(), spelled)
 	if err != nil {
 		w.checkErrTyped(err, "NewFrom")
 		w.fail("op-result", "NewFrom", nil, "NewFrom(%s) failed on a valid input: %v", tree.Canon(), err)
@@ -707,6 +791,11 @@ func (w *W) opMerge() string {
 		FitRep(srcTree, rep)
 		srcVal = Render(srcTree, rep, w.Opts)
 		desc = RepName(rep) + " " + srcTree.Canon()
+		if rep == RepGeneric {
+			var spelled string
+			srcVal, spelled = w.respell(srcVal)
+			desc += spelled
+		}
 	default:
 		// another handle's config: directly, or embedded in a map / slice
 		var cands []*Handle
@@ -1544,7 +1633,8 @@ func (w *W) readKind(h *Handle) {
 func (w *W) readMismatch(h *Handle) {
 	var leaves [][]model.Seg
 	h.M.Walk(func(x *model.Node, s []model.Seg) {
-		if x.K != model.KSub && len(s) > 0 && len(s) <= 3 {
+		if (x.K != model.KSub || (x.PureDict() && len(x.D) > 0)) && len(s) > 0 && len(s) <= 3 {
+			// (a dictionary read with a primitive getter: the failure is reported against the object)
 			if _, st := h.M.Lookup(s); st == model.Found {
 				leaves = append(leaves, s)
 			}
@@ -1562,6 +1652,9 @@ func (w *W) readMismatch(h *Handle) {
 	var err error
 	op := "Int"
 	switch n.K {
+	case model.KSub:
+		w.R.MustComplete(op, func() { _, err = h.C.Int(a.Name, a.Idx, w.Opts...) })
+		w.R.Probe("read: primitive getter on a dictionary")
 	case model.KBool, model.KStr, model.KNil:
 		w.R.MustComplete(op, func() { _, err = h.C.Int(a.Name, a.Idx, w.Opts...) })
 	default:
@@ -1570,7 +1663,7 @@ func (w *W) readMismatch(h *Handle) {
 	}
 	w.R.Fault("getter of the wrong kind on a primitive setting")
 	want := n.Path(".")
-	w.R.Tracef("h%d.%s%s on a %s setting = %v (path %s)", h.ID, op, a, n.K, err, want)
+	w.R.Tracef("h%d.%s%s on a %s setting %s = %v (path %s)", h.ID, op, a, n.K, n.Canon(), err, want)
 	if err == nil {
 		if n.K == model.KStr {
 			return // (a string that happens to parse)
@@ -1584,7 +1677,22 @@ func (w *W) readMismatch(h *Handle) {
 	if !tok.MatchString(msg) {
 		w.fail("error-names", op, map[string]string{"want": want, "msg": msg}, "%s%s failed as it must, but the error does not name the setting's path %q: %s", op, a, want, msg)
 	}
-	if n.Src != "" && !strings.Contains(msg, n.Src) {
+	srcKnown := n.Src != ""
+	if n.K == model.KSub {
+		// the source of a dictionary is known for sure only when all of it came from one input:
+		// every setting below it carries the same source, and at least one of them is not null
+		leaf := false
+		n.Walk(func(x *model.Node, _ []model.Seg) {
+			if x.Src != n.Src {
+				srcKnown = false
+			}
+			if x.K != model.KSub && x.K != model.KNil {
+				leaf = true
+			}
+		})
+		srcKnown = srcKnown && leaf
+	}
+	if srcKnown && !strings.Contains(msg, n.Src) {
 		w.fail("error-names", op, map[string]string{"want": n.Src, "msg": msg}, "%s%s failed as it must, but the error does not mention the source %q the setting was loaded with: %s", op, a, n.Src, msg)
 	}
 }
